@@ -523,6 +523,38 @@ func r05f(c *an.Ctx) {
 	if delOK {
 		c.Ob("delete-from-decline-set", fn.Pos(), nDel > 0, "offers leave the decline set only in makeTaskForMesosResources (%d delete sites)", nDel)
 	}
+	// (d) every offer is answered: the per-offer worker sends its ACCEPT (possibly empty) on every path - the task builder
+	// removes an offer from the decline set before steps that can still fail, so only the ACCEPT hands such an offer back
+	for _, f := range an.WithAnon(fn) {
+		var sends []ssa.Instruction
+		for _, ci := range an.CallsSuffix(f, "scheduler/calls.Accept") {
+			acc, isCall := ci.(*ssa.Call)
+			if !isCall {
+				continue
+			}
+			for _, snd := range an.Calls(f, func(n string, _ ssa.CallInstruction) bool {
+				return strings.HasSuffix(n, "scheduler/calls.CallNoData") || strings.HasSuffix(n, ").Call")
+			}) {
+				for _, a := range snd.Common().Args {
+					if an.DerivesFrom(a, acc) {
+						sends = append(sends, snd)
+					}
+				}
+			}
+		}
+		if len(sends) == 0 {
+			continue
+		}
+		c.Subject()
+		c.Mark(f)
+		bad := an.FirstExitAvoiding(f.Blocks[0].Instrs[0], sends)
+		pos := f.Pos()
+		if bad != nil {
+			pos = bad.Pos()
+		}
+		c.Ob("core/task.(*schedulerState).resourceOffers[per-offer]|accept-always-sent", pos, bad == nil,
+			"the per-offer worker can finish without sending its ACCEPT: an offer the task builder had already taken out of the decline set (then failed to build a task for) is neither accepted nor declined and its resources stay allocated to the framework")
+	}
 	// (b)+(c) in the handler closure(s)
 	for _, f := range an.WithAnon(fn) {
 		var mk *ssa.MakeMap
